@@ -1444,6 +1444,7 @@ func checkC12(p *Prog, res *Result, tier string) {
 	res.Assumptions = []string{"C11 assumptions"}
 	res.rule("C12-R0", "C11-R1 / R2 / R5 / R6 / R7 / R9 / R12 / R13 (sibling agreement of the adapters and the wrapper; batch begin/commit discipline, which only the in-process engine turns into a lock)", 30)
 	res.rule("C12-R6", "the scan-based expiry, which stands in for native TTL on the one engine that has none, removes an event record only under an age guard on that record's own revision, the index record by compare-and-delete (C17-R2/R3)", 4)
+	res.rule("C12-R7", "the snapshot timestamp handed to an engine iterator (an operand only TiKV reads) is the constant 0 or a value of GetTimestampOracle, never a revision", 2)
 	res.rule("C12-R5", "bytes handed to an engine write are not a window into a reusable buffer: the in-process engine keeps the slice it is given, the others copy it", 10)
 	res.rule("C12-R4", "results do not depend on how the engine partitions the key space, which only TiKV does (C13-R5, C13-R9)", 2)
 	res.rule("C12-R1", "the backend's write paths dispatch only on the error classes of the adapter table", 5)
@@ -1473,6 +1474,8 @@ func checkC12(p *Prog, res *Result, tier string) {
 			res.add("C12-R6", o.Rule+" "+o.Construct, o.Status, o.Pos, o.Detail)
 		}
 	}
+	// R7: an operand only one engine looks at
+	checkIterTimestamps(p, r, res, "C12-R7")
 	// R5: who owns the bytes of a write
 	checkValueOwnership(p, r, res, "C12-R5", func(*ssa.Function) bool { return true })
 
